@@ -60,48 +60,52 @@ func checkC27(p *Prog, r *Result, tier string) {
 
 		// EV: switch with Add / Remove
 		why = "no switch classifying events into Add / Remove"
-		prod.inspectBody(func(n ast.Node) bool {
-			sw, ok := n.(*ast.SwitchStmt)
-			if !ok {
-				return true
-			}
-			addOK, remOK := false, false
-			for _, cc := range sw.Body.List {
-				cl := cc.(*ast.CaseClause)
-				var names []string
-				for _, e := range cl.List {
-					if o := prod.objOf(e); o != nil {
-						names = append(names, o.Name())
+		// in the producer or in a helper of the package it hands the events to
+		for _, pf := range p.withLocalCallees(prod, 2) {
+			pf := pf
+			pf.inspectBody(func(n ast.Node) bool {
+				sw, ok := n.(*ast.SwitchStmt)
+				if !ok {
+					return true
+				}
+				addOK, remOK := false, false
+				for _, cc := range sw.Body.List {
+					cl := cc.(*ast.CaseClause)
+					var names []string
+					for _, e := range cl.List {
+						if o := pf.objOf(e); o != nil {
+							names = append(names, o.Name())
+						}
+					}
+					joined := strings.Join(names, ",")
+					calls := ""
+					for _, st := range cl.Body {
+						ast.Inspect(st, func(x ast.Node) bool {
+							if c, ok := x.(*ast.CallExpr); ok {
+								if sel, ok := unparen(c.Fun).(*ast.SelectorExpr); ok {
+									calls += sel.Sel.Name + " "
+								}
+							}
+							return true
+						})
+					}
+					isPut := strings.Contains(joined, "PUT") || strings.Contains(joined, "actionSet")
+					isDel := strings.Contains(joined, "DELETE") || strings.Contains(joined, "actionDel") || strings.Contains(joined, "actionExpired")
+					if isPut && strings.Contains(calls, "Add") && !strings.Contains(calls, "Remove") && !isDel {
+						addOK = true
+					}
+					if isDel && strings.Contains(calls, "Remove") && !strings.Contains(calls, "Add") && !isPut {
+						remOK = true
 					}
 				}
-				joined := strings.Join(names, ",")
-				calls := ""
-				for _, st := range cl.Body {
-					ast.Inspect(st, func(x ast.Node) bool {
-						if c, ok := x.(*ast.CallExpr); ok {
-							if sel, ok := unparen(c.Fun).(*ast.SelectorExpr); ok {
-								calls += sel.Sel.Name + " "
-							}
-						}
-						return true
-					})
+				if addOK && remOK {
+					why = ""
+				} else {
+					why = fmt.Sprintf("put-type events add: %v, delete-type events remove: %v", addOK, remOK)
 				}
-				isPut := strings.Contains(joined, "PUT") || strings.Contains(joined, "actionSet")
-				isDel := strings.Contains(joined, "DELETE") || strings.Contains(joined, "actionDel") || strings.Contains(joined, "actionExpired")
-				if isPut && strings.Contains(calls, "Add") && !strings.Contains(calls, "Remove") && !isDel {
-					addOK = true
-				}
-				if isDel && strings.Contains(calls, "Remove") && !strings.Contains(calls, "Add") && !isPut {
-					remOK = true
-				}
-			}
-			if addOK && remOK {
-				why = ""
-			} else {
-				why = fmt.Sprintf("put-type events add: %v, delete-type events remove: %v", addOK, remOK)
-			}
-			return true
-		})
+				return true
+			})
+		}
 		r.check2(why, "EV", be.name+" / registrations add, deregistrations and expiries remove", p.pos(prod.Lit), "PUT/set→Add, DELETE/del/expired→Remove")
 
 		// SND: two sends of <set>.ToSlice(): one dominated by the read and dominating the watch loop, one under `if changed`
